@@ -70,5 +70,67 @@ add("symbol::Span::end|overflow:Add|Add(*self.offs.0, *self.len)", "assumption",
 add("symbol::Span::join|overflow:Sub|Sub(end, offs)", "reviewed",
     "end = max(e1, e2) >= e1 = offs1 + len1 >= offs1 >= min(offs1, offs2) = offs (shape of join checked by C17.R4)")
 
+# ---------------------------------------------------------------- debugger command language (C14)
+DC = "debugger::command::"
+ARGS = "lace::debugger::command::parse::Arguments"
+A2 = "A2: reading standard input does not fail with an I/O error other than end of file"
+A3 = "A3: standard input carries valid UTF-8 (the property quantifies over strings)"
+FWA = dict(adt=ARGS, field="cursor", writers=["<debugger::command::parse::Arguments<'a> as core::convert::From<&'a str>>::from",
+                                              DC + "parse::Arguments::<'a>::next_token_str", DC + "parse::Arguments::<'a>::get_rest"])
+add("<" + DC + "parse::PCOffset as " + DC + "parse::TryParse<'a>>::try_parse|index|index on &str with adt:core::ops::range::RangeFrom:RangeFrom{len_utf8(0x5e)}",
+    "dominated-by-call", "the first character was just tested to be '^' (one byte), so 1 is a char boundary <= len",
+    callee=r"core::option::Option::<T>::is_none_or$", outcome="false")
+add("<" + DC + "parse::label::ByteCounted<'_> as core::iter::traits::iterator::Iterator>::next|overflow:Add|Add(*self.len, len_utf8(ch))", "reviewed",
+    "len sums len_utf8 of characters taken from one string, so it is at most that string's length")
+AR = "<" + DC + "reader::argument::Argument as " + DC + "reader::Read>::read|"
+FWR = dict(adt="lace::debugger::command::reader::argument::Argument", field="cursor",
+           writers=[DC + "reader::argument::Argument::from", "<" + DC + "reader::argument::Argument as " + DC + "reader::Read>::read"])
+add(AR + "index|index on &String with adt:core::ops::range::RangeFrom:RangeFrom{*self.cursor}", "field-writers",
+    "cursor < len is tested just above (EOF check); the cursor only ever advances by len_utf8 of the characters read plus one byte for the "
+    "ASCII delimiter, so it is a char boundary", **FWR)
+add(AR + "overflow:Add|Add(*self.cursor, len_utf8(ch))", "field-writers", "bounded by buffer.len()", **FWR)
+add(AR + "overflow:Add|Add(*self.cursor, 1)", "field-writers", "cursor <= buffer.len() here, so the sum is at most len + 1", **FWR)
+add(AR + "unwrap|expect(get(&*deref(&*self.buffer), adt:core::ops::range::Range:Range{start, end}))", "field-writers",
+    "start is the old cursor (a boundary), end = start + bytes of the characters walked over (a boundary <= len)", **FWR)
+add(DC + "Command::<'a>::parse_arguments|panic:debug_assert|debug_assert!(no more arguments should exist)", "dominated-by-call",
+    "get_rest moved the cursor to the end of the buffer, so expect_end finds nothing", callee=r"parse::Arguments::<'a>::get_rest$", outcome="any")
+add(DC + "Command::<'a>::parse_arguments|panic:debug_assert|debug_assert!(no more arguments should exist)#2", "dominated-by-call",
+    "get_rest moved the cursor to the end of the buffer, so expect_end finds nothing", callee=r"parse::Arguments::<'a>::get_rest$", outcome="any")
+add(DC + "Command::<'a>::parse_arguments|overflow:Add|Add(arg_count(&*iter), 1)", "reviewed",
+    "arg_count counts argument requests of one command; next_argument_str is never called in a loop (see its own entry), so the count is at most 4")
+add(DC + "parse::Arguments::<'a>::next_argument_str|overflow:Add|Add(*self.arg_count, 1)", "not-in-loop",
+    "u8 counter of argument requests per command: bounded by the number of call sites")
+add(DC + "parse::Arguments::<'a>::get_rest|index|index on &str with adt:core::ops::range::RangeFrom:RangeFrom{start}", "field-writers",
+    "start is the cursor: 0, a token end (boundary) or buffer.len()", **FWA)
+add(DC + "parse::Arguments::<'a>::next_token_str|index|index on &str with adt:core::ops::range::RangeFrom:RangeFrom{*self.cursor}", "field-writers",
+    "the cursor is 0, a token end computed from len_utf8 sums, or buffer.len(): a char boundary <= len", **FWA)
+add(DC + "parse::Arguments::<'a>::next_token_str|panic:debug_assert|debug_assert!(semicolons/newlines should have been handled already)", "conditional",
+    "every reader splits on ';' and newline and never hands them on (C14.R5)", on="C14.R5")
+for k in ("Add(start, len_utf8(ch))", "Add(length, len_utf8(ch))", "Add(start, length)"):
+    add(DC + "parse::Arguments::<'a>::next_token_str|overflow:Add|" + k, "reviewed", "sums of len_utf8 of characters of the buffer, bounded by buffer.len()")
+add(DC + "parse::Arguments::<'a>::next_token_str|index|index on &str with adt:core::ops::range::Range:Range{start, end}", "reviewed",
+    "start = cursor + bytes of skipped spaces, end = start + bytes of the token's characters: boundaries with start <= end <= len")
+add(DC + "parse::integer::parse_integer|overflow:Mul|Mul(integer, (discr(prefix.radix) as i32))", "guarded-mul",
+    "dominated by `integer > i32::MAX / radix` -> return, and integer >= 0")
+add(DC + "parse::integer::parse_integer|panic:assert|assert!(should have looped until end of argument, or early-returned )", "reviewed",
+    "the `for ch in chars.by_ref()` loop only falls through after next() returned None; Peekable<Chars> keeps returning None (Chars is fused)")
+add(DC + "parse::integer::parse_integer|overflow:Mul|Mul(integer, (discr(sign) as i32))", "reviewed",
+    "integer is built from non-negative digits with checked operations, so 0 <= integer <= i32::MAX and sign is +1/-1")
+add(DC + "parse::label::<impl " + DC + "parse::TryParse<'a> for " + DC + "Label<'a>>::try_parse|index|split_at on &str with length", "reviewed",
+    "length = ByteCounted::len = bytes of the leading characters consumed from this very string: a char boundary <= len")
+add(DC + "parse::name::<impl " + DC + "parse::Arguments<'_>>::get_command_name|panic:assert|assert!(tried to parse command name from middle of buffer)", "reviewed",
+    "its only caller, Command::try_from, builds a fresh Arguments (cursor 0) and asks for the name first")
+add(DC + "parse::name::<impl " + DC + "parse::Arguments<'_>>::get_command_name|unwrap|expect(command_name)", "callers-dominated",
+    "read_from skips lines that are empty after trim(), so there is a first token", root=r"command::Command::<'a>::read_from$",
+    callee=r"core::str::<impl str>::is_empty$", outcome="false")
+add(DC + "parse::name::<impl " + DC + "parse::Arguments<'_>>::name_matches_with_subcommand|bounds|index 0 < len PtrMetadata(commands)", "nonempty-const-arg",
+    "the candidate list is one of two non-empty const arrays", param=2)
+add(DC + "reader::stdin::Stdin::read_byte|unwrap|expect(read(&*self.stdin, (&buf as &mut [u8])))", "assumption", A2)
+add(DC + "reader::stdin::Stdin::read_char|unwrap|expect(read_char_from_bytes(closure:lace::debugger::command::reader::stdin::Stdin::read_char::{cl\u2026)",
+    "assumption", A3)
+add(DC + "reader::stdin::read_char_from_bytes|index|index on &[u8; 4] with adt:core::ops::range::Range:Range{0, utf8_len}", "reviewed",
+    "utf8_len is one of the constants 1..=4 returned by Utf8Position::len")
+add(DC + "reader::stdin::read_char_from_bytes|bounds|index i < len 4", "reviewed", "i ranges over 1..utf8_len with utf8_len <= 4")
+
 json.dump({"entries": E}, open(os.path.join(os.path.dirname(os.path.dirname(os.path.abspath(__file__))), "tables", "ledger.json"), "w"), indent=1)
 print(len(E), "ledger entries")
